@@ -1351,6 +1351,12 @@ pub fn faults_for_event(trace: &[Event], i: usize) -> Vec<Vec<RuleSpec>> {
                 v.push(vec![RuleSpec::errno("close", t, nth, "EIO", "close-fail")]);
             }
         }
+        // the size an input reports is a hint (procfs, pipes, a file that grows while it is read)
+        Call::Fstat if !is_out => {
+            for n in [0usize, 7] {
+                v.push(vec![RuleSpec::limit("fstat", t, nth, n, "size-lie")]);
+            }
+        }
         Call::Fsync => v.push(vec![RuleSpec::errno("fsync", t, nth, "EIO", "fsync-fail")]),
         // an advisory lock somebody else holds (EAGAIN = EWOULDBLOCK) - only a tree that takes
         // locks ever gets here
@@ -1366,7 +1372,7 @@ fn faultable_events(trace: &[Event]) -> Vec<usize> {
     trace
         .iter()
         .enumerate()
-        .filter(|(_, e)| matches!(e.call, Call::Stat | Call::Open | Call::Read | Call::Write | Call::Close | Call::Fsync | Call::Flock | Call::Rename | Call::Ftruncate) && !(e.call == Call::Stat && e.ret != 0))
+        .filter(|(_, e)| matches!(e.call, Call::Stat | Call::Open | Call::Read | Call::Write | Call::Close | Call::Fsync | Call::Flock | Call::Rename | Call::Ftruncate | Call::Fstat) && !(e.call == Call::Stat && e.ret != 0) && !(e.call == Call::Fstat && trace.iter().any(|x| x.path == e.path && x.call == Call::Write)))
         .map(|(i, _)| i)
         .collect()
 }
